@@ -203,6 +203,7 @@ type Config struct {
 	FullNode   bool
 	Role       spectypes.BeaconRole
 	NoSelfLoop bool
+	ByzIDs     []int // optional explicit choice of the Byzantine operators (indices 0..N-1); nil = drawn by the rng
 }
 
 type Cluster struct {
@@ -246,10 +247,13 @@ func NewCluster(env *Env, rng *rand.Rand, cfg Config) *Cluster {
 		tag: fmt.Sprintf("c%d", env.seq)}
 	// values in play
 	for i := 0; i < 4; i++ {
-		c.Values = append(c.Values, []byte(fmt.Sprintf("V%d-%s", i+1, c.tag)))
+		c.Values = append(c.Values, []byte(fmt.Sprintf("V%d-value", i+1))) // independent of the env counter: a prefix re-run from its seed is identical
 	}
 	byz := map[int]bool{}
-	for len(byz) < cfg.NumByz {
+	for _, i := range cfg.ByzIDs {
+		byz[i] = true
+	}
+	for cfg.ByzIDs == nil && len(byz) < cfg.NumByz {
 		byz[rng.Intn(cfg.N)] = true
 	}
 	for i := 0; i < cfg.N; i++ {
@@ -624,7 +628,7 @@ func uniqueBySigner(ms []*specqbft.SignedMessage, keep func(*specqbft.SignedMess
 func (c *Cluster) anyValue() []byte {
 	// mostly values in play, sometimes an invalid one
 	if c.Rng.Intn(12) == 0 {
-		return []byte("X-invalid-" + c.tag)
+		return []byte("X-invalid")
 	}
 	return c.Values[c.Rng.Intn(len(c.Values))]
 }
@@ -691,7 +695,7 @@ func (c *Cluster) mkRoundChange(b *Node, r specqbft.Round, wantPrepared bool) *s
 			msg.RoundChangeJustification = js
 			msg.DataRound = k.r
 			msg.Root = k.root
-			for _, v := range append(c.Values, []byte("X-invalid-"+c.tag)) {
+			for _, v := range append(c.Values, []byte("X-invalid")) {
 				if Root(v) == k.root {
 					full = v
 				}
@@ -845,3 +849,108 @@ func Aggregate(ms []*specqbft.SignedMessage) *specqbft.SignedMessage {
 	ret.Signature = agg.Serialize()
 	return ret
 }
+
+// ---- scripting primitives for directed strategies ------------------------------------------------------
+
+// DeliverWhere delivers, in pool order, every in-flight message matching pred, including matching messages produced
+// while doing so, until none is left. Returns the number delivered.
+func (c *Cluster) DeliverWhere(pred func(f *Flight) bool, after func()) int {
+	n := 0
+	for guard := 0; guard < 100000; guard++ {
+		idx := -1
+		for i, f := range c.Pool {
+			if pred(f) {
+				idx = i
+				break
+			}
+		}
+		if idx < 0 {
+			return n
+		}
+		f := c.Pool[idx]
+		c.Pool = append(c.Pool[:idx], c.Pool[idx+1:]...)
+		err := c.Deliver(c.Nodes[f.To-1], f.Msg, f.Byz)
+		c.act("deliver %s -> n%d err=%v", Desc(f.Msg), f.To, err != nil)
+		n++
+		if after != nil {
+			after()
+		}
+	}
+	return n
+}
+
+// DropWhere removes every in-flight message matching pred.
+func (c *Cluster) DropWhere(pred func(f *Flight) bool) int {
+	var keep []*Flight
+	n := 0
+	for _, f := range c.Pool {
+		if pred(f) {
+			n++
+			c.Dropped++
+			continue
+		}
+		keep = append(keep, f)
+	}
+	c.Pool = keep
+	if n > 0 {
+		c.act("drop %d matching messages", n)
+	}
+	return n
+}
+
+// ByzSendTo puts a Byzantine-crafted message in flight to the given honest operators.
+func (c *Cluster) ByzSendTo(from *Node, m *specqbft.SignedMessage, what string, to []*Node) {
+	c.Seen = append(c.Seen, m)
+	for _, d := range to {
+		if !d.Byz {
+			c.Pool = append(c.Pool, &Flight{Msg: m, To: d.ID, From: from.ID, Byz: true})
+		}
+	}
+	c.ByzMsgs++
+	c.act("byz n%d %s: %s -> %d operators", from.ID, what, Desc(m), len(to))
+}
+
+// MkProposal crafts a correctly signed proposal by b.
+func (c *Cluster) MkProposal(b *Node, r specqbft.Round, v []byte, rcs, prepares []*specqbft.SignedMessage) *specqbft.SignedMessage {
+	rcj, _ := specqbft.MarshalJustifications(rcs)
+	pj, _ := specqbft.MarshalJustifications(prepares)
+	sm := Sign(c.KS, b.ID, &specqbft.Message{MsgType: specqbft.ProposalMsgType, Height: c.Cfg.Height, Round: r, Identifier: c.ID,
+		Root: Root(v), RoundChangeJustification: rcj, PrepareJustification: pj})
+	sm.FullData = v
+	return sm
+}
+
+func (c *Cluster) MkSimple(b *Node, t specqbft.MessageType, r specqbft.Round, root [32]byte) *specqbft.SignedMessage {
+	return Sign(c.KS, b.ID, &specqbft.Message{MsgType: t, Height: c.Cfg.Height, Round: r, Identifier: c.ID, Root: root})
+}
+
+// MkRoundChange exposes the Byzantine round-change builder (prepared on what was seen, or unprepared).
+func (c *Cluster) MkRoundChange(b *Node, r specqbft.Round, prepared bool) *specqbft.SignedMessage {
+	return c.mkRoundChange(b, r, prepared)
+}
+
+// MkForgedPreparedRC: b claims to be prepared on v in round pr, justified only by the prepares of the given signers
+// (typically just the Byzantine operators: a sub-quorum, i.e. a forged justification).
+func (c *Cluster) MkForgedPreparedRC(b *Node, r, pr specqbft.Round, v []byte, signers []*Node) *specqbft.SignedMessage {
+	var ps []*specqbft.SignedMessage
+	for _, s := range signers {
+		ps = append(ps, c.MkSimple(s, specqbft.PrepareMsgType, pr, Root(v)))
+	}
+	js, _ := specqbft.MarshalJustifications(ps)
+	sm := Sign(c.KS, b.ID, &specqbft.Message{MsgType: specqbft.RoundChangeMsgType, Height: c.Cfg.Height, Round: r, Identifier: c.ID,
+		Root: Root(v), DataRound: pr, RoundChangeJustification: js})
+	sm.FullData = v
+	return sm
+}
+
+// SeenOf returns the single-signer messages of a type (and round, 0 = any) that were ever broadcast.
+func (c *Cluster) SeenOf(t specqbft.MessageType, round specqbft.Round) []*specqbft.SignedMessage {
+	return c.seenOf(t, round)
+}
+
+// UniqueBySigner keeps the first message per signer.
+func UniqueBySigner(ms []*specqbft.SignedMessage, keep func(*specqbft.SignedMessage) bool) []*specqbft.SignedMessage {
+	return uniqueBySigner(ms, keep)
+}
+
+func (c *Cluster) Act(format string, a ...any) { c.act(format, a...) }
